@@ -1100,6 +1100,7 @@ namespace BitSerializer::MsgPack::Detail
 				return true;
 			}
 			HandleMismatchedTypesPolicy(mBinaryStreamReader, ByteCodeTable[static_cast<uint8_t>(*byteCode)].Type, mSerializationOptions.mismatchedTypesPolicy);
+			return false;
 		}
 		throw ParsingException("No more values to read", 0, mBinaryStreamReader.GetPosition());
 	}
